@@ -141,6 +141,8 @@ def _adjoint_path(res, cfg, facts0, run, shapes, sub, none, tau, interior_fn, ma
         if none[k] or not sub[k]:
             continue
         ga = AG.grad_of(leaves[k], acc)
+        if any(p is not None for p in ga.reshape(-1)):
+            ga = np.array([P.ZERO if p is None else p for p in ga.reshape(-1)], dtype=object).reshape(ga.shape)
         for idx in np.ndindex(*ga.shape):
             atom = int(lids[k][idx])
             true = P.lincomb(Jt.get(atom, []))
